@@ -30,8 +30,8 @@ fn plan(tier: Tier) -> Vec<Unit> {
     match tier {
         Tier::Quick => {
             let mut v = crate::util::split_budget("grid", GRID_LEN * GRID_SCALES, 101);
-            v.extend(crate::util::split_budget("random", 30_000, 1_000));
-            v.extend(crate::util::split_budget("zeros", 400, 100));
+            v.extend(crate::util::split_budget("random", 300_000, 3_000));
+            v.extend(crate::util::split_budget("zeros", 4_000, 500));
             v
         }
         Tier::Thorough => {
